@@ -50,13 +50,27 @@ def programs():
     return P
 
 
+def xv_programs():
+    """programs evaluated in the extended-real (NaN / +-inf aware) mode: a branch or mask guards a function that is
+    singular on the other side; jax.jvp / jax.grad never evaluate (or zero out) the untaken side, so must ADEV"""
+    P = {}
+    P["guarded_sqrt"] = (lambda x: jax.lax.cond(x > 0, lambda: jnp.sqrt(x) * x, lambda: x ** 2), (f32(0.5),))
+    P["guarded_log_then"] = (lambda x: jax.lax.cond(x > 0, lambda: jnp.log(x), lambda: -x) * 2.0 + x, (f32(0.5),))
+    P["guarded_division"] = (lambda x, y: jax.lax.cond(y != 0, lambda: x / y, lambda: x * 3.0) + y, (f32(0.5), f32(1.5)))
+    P["integer_derived_zero"] = (lambda x: jnp.sum(x) * (1.0 + jnp.sqrt(jnp.sum(x > 5.0).astype(jnp.float32))), (V(0.3, -1.2, 2.0),))
+    P["cond_on_data_three_ops"] = (lambda x: jax.lax.cond(x * x > 1.0, lambda: 1.0 / (x * x - 1.0), lambda: jnp.sqrt(1.0 - x * x)), (f32(0.5),))
+    return P
+
+
 def groups(tier, seed):
-    return [f"prog:{k}" for k in programs()]
+    return [f"prog:{k}" for k in programs()] + [f"xv:{k}" for k in xv_programs()]
 
 
 def run_group(g, gid):
     from genjax.adev import expectation, Dual
-    _, _, name = gid.partition(":")
+    kind, _, name = gid.partition(":")
+    if kind == "xv":
+        return run_xv(g, name)
     f, args = programs()[name]
     g.programs.add(name)
     E = expectation(f)
@@ -89,3 +103,43 @@ def run_group(g, gid):
     if Te is not None:
         Re = sj.sym_trace(lambda a: f(*a), args, sym_in=Te.flat_in)
         g.eq(f"{name}: estimate == f(args)", Te.outs, Re.outs)
+
+
+def run_xv(g, name):
+    """the same three identities with every float an extended real (NaN, +inf, -inf or finite): inputs and tangents are
+    arbitrary FINITE reals, intermediate values may be non-finite, and NaN == NaN for the purpose of the comparison"""
+    from genjax.adev import expectation, Dual
+    f, args = xv_programs()[name]
+    g.programs.add("xv:" + name)
+    E = expectation(f)
+    tangents = jax.tree_util.tree_map(lambda a: np.ones_like(a), args)
+
+    def xv_in(T):
+        return [sj.ew(lambda t: sj.XV.fin(t))(None, None, a) for a in T.flat_in]
+
+    def adev_jvp(args, tangents):
+        d = E.jvp_estimate(*Dual.dual_tree(args, tangents))
+        return d.primal, d.tangent
+    pre = g.try_trace(f"{name} [NaN/inf aware]: jvp_estimate traces", adev_jvp, args, tangents)
+    if pre is not None:
+        g.traces.remove(pre)
+        xin = xv_in(pre)
+        Tj = g.trace(adev_jvp, args, tangents, sym_in=xin)
+        Rj = sj.sym_trace(lambda a, t: jax.jvp(f, a, t), args, tangents, sym_in=xin)
+        g.eq(f"{name} [NaN/inf aware]: jvp_estimate primal == jax.jvp primal", Tj.outs[0], Rj.outs[0])
+        g.eq(f"{name} [NaN/inf aware]: jvp_estimate tangent == jax.jvp tangent", Tj.outs[1], Rj.outs[1])
+    pre = g.try_trace(f"{name} [NaN/inf aware]: grad_estimate traces", lambda a: E.grad_estimate(*a), args)
+    if pre is not None:
+        g.traces.remove(pre)
+        xin = xv_in(pre)
+        Tg = g.trace(lambda a: E.grad_estimate(*a), args, sym_in=xin)
+        Rg = sj.sym_trace(lambda a: jax.grad(lambda *xs: f(*xs), argnums=tuple(range(len(a))))(*a), args, sym_in=xin)
+        ref = Rg.outs if len(args) > 1 else Rg.outs[0]
+        g.eq(f"{name} [NaN/inf aware]: grad_estimate == jax.grad (the untaken branch contributes nothing, not even NaN)", Tg.outs, ref)
+    pre = g.try_trace(f"{name} [NaN/inf aware]: estimate traces", lambda a: E.estimate(*a), args)
+    if pre is not None:
+        g.traces.remove(pre)
+        xin = xv_in(pre)
+        Te = g.trace(lambda a: E.estimate(*a), args, sym_in=xin)
+        Re = sj.sym_trace(lambda a: f(*a), args, sym_in=xin)
+        g.eq(f"{name} [NaN/inf aware]: estimate == f(args)", Te.outs, Re.outs)
